@@ -121,6 +121,12 @@ func verifConstrainRecords(b []byte, n int, K, L int, spacer bool) {
 		} else {
 			verifAssume(int(r.ln) <= L)
 			verifAssume(off+16+int(r.ln) <= n)
+			// kernel contract: IN_IGNORED / IN_UNMOUNT / IN_DELETE_SELF are only queued for a
+			// mark the kernel has destroyed (state DYING in the model)
+			for j := 0; j < verifNTable; j++ {
+				ending := r.mask&(unix.IN_IGNORED|unix.IN_UNMOUNT|unix.IN_DELETE_SELF) != 0
+				verifAssume(verifImplies(verifAnd(uint32(r.wd) == verifTable[j].wd, ending), verifK.marks[j].state == kDying))
+			}
 			nl := int(verifU32("nl"))
 			r.nl = nl
 			ok := verifImplies(r.ln > 0, verifAnd(nl >= 1, nl < int(r.ln)))
@@ -155,6 +161,7 @@ func verifSpecStep(k int, exp []verifExp, errs []error) ([]verifExp, []error) {
 	}
 	if r.mask&(unix.IN_IGNORED|unix.IN_UNMOUNT) != 0 {
 		e.live = false
+		verifK.marks[i].state = kNone // IN_IGNORED is the last notification of a wd
 		return exp, errs
 	}
 	if r.mask&unix.IN_DELETE_SELF != 0 {
@@ -162,6 +169,7 @@ func verifSpecStep(k int, exp []verifExp, errs []error) ([]verifExp, []error) {
 	}
 	if r.mask&unix.IN_MOVE_SELF != 0 {
 		e.live = false
+		verifAssert(verifRmLogged(e.wd), "IN_MOVE_SELF: the kernel watch of the moved file must be removed (it would keep reporting under the old name)")
 	}
 	if r.mask&unix.IN_DELETE_SELF != 0 && verifListed(filepath.Dir(e.path)) {
 		return exp, errs // the parent's watch reports the removal
@@ -191,11 +199,23 @@ func verifCheckTables(w *inotify) {
 	verifAssert(len(w.watches.wd) == live && len(w.watches.path) == live, "tables hold exactly one entry per live watch")
 }
 
-func H_decode() {
+func H_decode() { verifDecodeRun(0) }
+
+// mode 1: the two halves of one rename inside a watched directory, back to back
+func H_rename_pair() { verifDecodeRun(1) }
+
+// mode 2: an overflow marker followed by an ordinary record; afterwards the
+// watcher still accepts Add/Remove
+func H_overflow_survive() { verifDecodeRun(2) }
+
+func verifDecodeRun(mode int) {
 	K := verifParam("K")
 	L := verifParam("L")
 	W := verifParam("W")
 	spacer := verifParam("SPACER") != 0
+	if mode != 0 {
+		K, spacer = 2, false
+	}
 	verifKReset()
 	w := verifNewInotify(K)
 	verifSetupTable(w, W)
@@ -206,6 +226,19 @@ func H_decode() {
 	verifFillBuffer = func(i int, b []byte, n int) {
 		if i == 0 {
 			verifConstrainRecords(b, n, K, L, spacer)
+			r0, r1 := &verifRecs[0], &verifRecs[1]
+			if mode == 1 {
+				isdir := r0.mask & unix.IN_ISDIR
+				verifAssume(r0.mask == unix.IN_MOVED_FROM|isdir && r1.mask == unix.IN_MOVED_TO|isdir)
+				verifAssume(r0.cookie != 0 && r0.cookie == r1.cookie)
+				verifAssume(uint32(r0.wd) == verifTable[0].wd && r1.wd == r0.wd) // the watched directory "/t"
+				verifAssume(r0.ln > 0 && r1.ln > 0)
+			}
+			if mode == 2 {
+				verifAssume(r0.mask == unix.IN_Q_OVERFLOW && r0.ln == 0)
+				verifAssume(r1.mask&verifHousekeeping == 0 && verifInotifyOps(r1.mask) != 0)
+				verifAssume(uint32(r1.wd) == verifTable[0].wd)
+			}
 		}
 	}
 
@@ -219,8 +252,13 @@ func H_decode() {
 			verifReach("decode-moveself")
 		}
 	}
-	for _, e := range exp {
+	if mode == 1 {
+		verifAssert(len(exp) == 2 && exp[0].op == Rename && exp[1].op == Create, "spec: a rename is Rename(old) then Create(new)")
+	}
+	var got [verifMaxRecs]Event
+	for i, e := range exp {
 		ev, ok := <-w.Events
+		got[i] = ev
 		verifAssert(ok, "an event is missing (lost): Events closed before all expected events were delivered")
 		verifAssert(ev.Op == e.op, "delivered Op differs from the documented translation of the kernel mask (or events out of order)")
 		verifAssert(ev.Op != 0, "event with empty Op delivered")
@@ -228,6 +266,10 @@ func H_decode() {
 	}
 	_, more := <-w.Events
 	verifAssert(!more, "phantom event: more events delivered than kernel records warrant")
+	if mode == 1 {
+		verifAssert(got[1].renamedFrom == got[0].Name, "the Create of a rename identifies the old name of the immediately preceding Rename")
+		verifReach("rename-pair")
+	}
 	for range errs {
 		err, ok := <-w.Errors
 		verifAssert(ok && errors.Is(err, ErrEventOverflow), "overflow record must yield ErrEventOverflow on Errors")
@@ -240,11 +282,39 @@ func H_decode() {
 		verifFail("doneResp not closed when the reader returned")
 	}
 	verifCheckTables(w)
-	if len(exp) == K-verifParam("SPACER") {
-		verifReach("decode-all-delivered")
+	verifJ(w, " after decoding")
+	if mode == 2 {
+		verifAssert(len(errs) == 1 && len(exp) == 1, "spec: overflow announced, the next record still delivered")
+		verifReach("overflow-survive")
+		return
 	}
-	if len(errs) > 0 {
-		verifReach("decode-overflow")
+	if mode == 0 {
+		if len(exp) == K-verifParam("SPACER") {
+			verifReach("decode-all-delivered")
+		}
+		if len(errs) > 0 {
+			verifReach("decode-overflow")
+		}
+		verifReach("decode-end")
 	}
-	verifReach("decode-end")
+}
+
+// After an overflow the watcher keeps accepting Add/Remove (on a fresh watcher
+// value in the same table state: the overflow record changes no state).
+func H_overflow_then_ops() {
+	W := verifParam("W")
+	verifKReset()
+	w := verifNewInotify(1)
+	verifSetupTable(w, W)
+	verifK.nIno = W + 1
+	ev, ok := verifDeliver(w, 0xffffffff, unix.IN_Q_OVERFLOW, 0)
+	verifAssert(ok && ev.Op == 0, "the overflow marker itself is not an event")
+	verifCheckTables(w)
+	verifK.addResolve = W
+	verifAssert(w.Add("/new") == nil, "Add works after an overflow")
+	verifCheckList(w, verifLivePaths("", "/new"), " after overflow + Add")
+	verifAssert(w.Remove("/new") == nil, "Remove works after an overflow")
+	verifCheckList(w, verifLivePaths("", ""), " after overflow + Add + Remove")
+	verifJ(w, " after overflow + Add + Remove")
+	verifReach("overflow-then-ops")
 }
